@@ -109,12 +109,21 @@ def accuracy_case(c):
         decoys = [np.ascontiguousarray(np.roll(t[::-1, :, ::-1], j + 1, axis=1)) for j in range(nt - 1)]
         tl = decoys[:which] + [t] + decoys[which:]
         model = M(tl, rotations=((20, 20), (0, 0), (20, 20)), **kw)
+    elif c.get("rotmask"):
+        # a rotation search together with a soft mask that is not symmetric under the searched rotations (a ball around an off-centre
+        # region): an unrotated displaced copy must still come back with the identity rotation and the displacement (half-pixel clause)
+        zz, yy, xx = np.indices(t.shape)
+        ctr = (np.array(t.shape) - 1) / 2 + np.array(c["rotmask"]["offset"])
+        rad = c["rotmask"]["radius"]
+        dist = np.sqrt((zz - ctr[0]) ** 2 + (yy - ctr[1]) ** 2 + (xx - ctr[2]) ** 2)
+        mask = np.clip((rad + 1.5 - dist) / 3.0, 0.0, 1.0).astype(np.float32)
+        model = M(t, mask, rotations=tuple(tuple(x) for x in c["rotmask"]["rotations"]), **kw)
     else:
         model = M(t, **kw)
     q = Rotation.from_rotvec(c["rotvec"]).as_quat() if c.get("rotvec") else None
     res = model.align(img, tuple(c["max_shifts"]), quaternion=q)
     err = float(np.abs(np.asarray(res.shift, float) - d).max())
-    tol = 0.5 if c["model"] == "fsc" else 0.1
+    tol = 0.5 if (c["model"] == "fsc" or c.get("rotmask")) else 0.1
     ok = err <= tol + 1e-6 and (np.allclose(res.quat, [0, 0, 0, 1], atol=1e-6) or np.allclose(res.quat, [0, 0, 0, -1], atol=1e-6))
     if c.get("multi") and int(res.label) % c["multi"][0] != c["multi"][1]:
         ok = False
@@ -139,6 +148,13 @@ DIRECTED = [
     # FSC with a different search length on every axis (each axis needs its own phase table)
     dict(model="fsc", shape=[14, 15, 16], max_shifts=[2.0, 1.0, 2.0], d=[1.0, -1.0, 2.0], seed=11, cutoff=None, tilt=None, rotvec=None, dkind="integer"),
     dict(model="fsc", shape=[16, 14, 15], max_shifts=[1.0, 2.0, 1.5], d=[-1.0, 2.0, 1.0], seed=12, cutoff=None, tilt=None, rotvec=None, dkind="integer"),
+    # rotation search with a soft mask around an off-centre region
+    dict(model="zncc", shape=[20, 20, 20], max_shifts=[2.0, 2.0, 2.0], d=[1.0, -1.0, 0.0], seed=31, cutoff=None, tilt=None, rotvec=None, dkind="rotmask",
+         rotmask={"offset": [0.0, 3.0, -2.0], "radius": 6.0, "rotations": [[0, 0], [0, 0], [90, 90]]}),
+    dict(model="ncc", shape=[20, 21, 19], max_shifts=[2.0, 2.0, 2.0], d=[0.0, 1.0, -1.0], seed=32, cutoff=None, tilt=None, rotvec=None, dkind="rotmask",
+         rotmask={"offset": [2.0, -2.0, 2.0], "radius": 6.0, "rotations": [[60, 30], [0, 0], [0, 0]]}),
+    dict(model="pcc", shape=[20, 20, 20], max_shifts=[2.0, 2.0, 2.0], d=[-1.0, 0.0, 1.0], seed=33, cutoff=None, tilt=None, rotvec=None, dkind="rotmask",
+         rotmask={"offset": [-2.0, 0.0, 3.0], "radius": 6.0, "rotations": [[0, 0], [90, 90], [0, 0]]}),
     # reproducer of the recorded finding C04-fsc-half-integer-lag
     dict(model="fsc", shape=[14, 14, 14], max_shifts=[1.0, 1.0, 1.0], d=[0.35, 0.45, -0.1], seed=2098463371, cutoff=None, tilt=None, rotvec=None, dkind="small"),
 ]
